@@ -46,6 +46,7 @@ TermOps == {"construct", "difference", "pick_term", "term_rename", "term_isolate
             "is_empty", "simplify", "list_copy", "contains"}
 TwinOps == {"list_refines", "refines", "is_empty", "simplify", "union", "contains_env", "contains_impl", "optimize", "list_copy", "copy", "vars_query"}
 HashOps == {"copy", "simplify_inplace", "hash_eq", "rename", "dict_roundtrip", "compose", "merge"}
+SolverOps == {"optimize", "is_empty", "copy", "simplify"}     \* LP-backed queries on a small pool: what one solve leaves behind would show in the next
 Ops == DOMAIN Sig \cap OpFilter
 
 VARIABLES kinds,   \* kinds[i] : kind of pool member i ("C" / "L" / "S")
